@@ -207,3 +207,165 @@ func TestVerifC05ServerSession(t *testing.T) {
 		}
 	}
 }
+
+// TestVerifC05ServerReceiveOrder: client -> server direction through the real session manager: the
+// fragments of a message (also of the FIRST message of a session, when no session exists yet) arrive
+// in every order / with duplicates; once all fragments have arrived the outbound socket must have
+// received the payload byte-identical, exactly once, addressed as requested — or nothing.
+type vfC05RConn struct {
+	mu     sync.Mutex
+	writes [][]byte
+	addrs  []string
+	closed chan struct{}
+	once   sync.Once
+}
+
+func (c *vfC05RConn) ReadFrom(b []byte) (int, string, error) {
+	<-c.closed
+	return 0, "", errors.New("vf: socket closed")
+}
+func (c *vfC05RConn) WriteTo(b []byte, addr string) (int, error) {
+	c.mu.Lock()
+	c.writes = append(c.writes, append([]byte(nil), b...))
+	c.addrs = append(c.addrs, addr)
+	c.mu.Unlock()
+	return len(b), nil
+}
+func (c *vfC05RConn) Close() error { c.once.Do(func() { close(c.closed) }); return nil }
+
+type vfC05RIO struct {
+	inbox  chan *protocol.UDPMessage
+	closed chan struct{}
+	mu     sync.Mutex
+	conns  map[string]*vfC05RConn
+}
+
+func (f *vfC05RIO) ReceiveMessage() (*protocol.UDPMessage, error) {
+	select {
+	case m := <-f.inbox:
+		return m, nil
+	case <-f.closed:
+		return nil, errors.New("vf: connection closed")
+	}
+}
+func (f *vfC05RIO) SendMessage(buf []byte, m *protocol.UDPMessage) error { return nil }
+func (f *vfC05RIO) Hook(data []byte, reqAddr *string) error              { return nil }
+func (f *vfC05RIO) UDP(reqAddr string) (UDPConn, error) {
+	c := &vfC05RConn{closed: make(chan struct{})}
+	f.mu.Lock()
+	f.conns[reqAddr] = c
+	f.mu.Unlock()
+	return c, nil
+}
+func (f *vfC05RIO) CheckUDP(reqAddr string) error { return nil }
+
+func TestVerifC05ServerReceiveOrder(t *testing.T) {
+	k := vfNewKit(t, "C05", "server-recv-order")
+	defer k.Finish()
+	type rcase struct {
+		CaseID string `json:"case_id"`
+		NFrag  int    `json:"fragments"`
+		Order  []int  `json:"arrival_order"`
+		First  bool   `json:"first_message_of_session"`
+	}
+	var cases []rcase
+	id := 0
+	add := func(n int, order []int, first bool) {
+		cases = append(cases, rcase{CaseID: fmt.Sprintf("rorder-%d", id), NFrag: n, Order: order, First: first})
+		id++
+	}
+	// every permutation for 2..4 fragments, as the first message of a session and on an existing session
+	var perm func(a []int, i int, f func([]int))
+	perm = func(a []int, i int, f func([]int)) {
+		if i == len(a) {
+			f(append([]int(nil), a...))
+			return
+		}
+		for j := i; j < len(a); j++ {
+			a[i], a[j] = a[j], a[i]
+			perm(a, i+1, f)
+			a[i], a[j] = a[j], a[i]
+		}
+	}
+	for n := 2; n <= 4; n++ {
+		base := make([]int, n)
+		for i := range base {
+			base[i] = i
+		}
+		for _, first := range []bool{true, false} {
+			perm(base, 0, func(o []int) { add(n, o, first) })
+		}
+	}
+	r := k.Rand("orders")
+	for i := 0; i < k.N(150, 3000); i++ {
+		n := 5 + r.Intn(30)
+		o := r.Perm(n)
+		for d := r.Intn(4); d > 0; d-- { // duplicates
+			pos := r.Intn(len(o) + 1)
+			o = append(o[:pos], append([]int{r.Intn(n)}, o[pos:]...)...)
+		}
+		add(n, o, r.Intn(2) == 0)
+	}
+	for ci, c := range cases {
+		if rc := k.ReplayCase(); rc != "" && rc != c.CaseID {
+			continue
+		}
+		k.Eval()
+		synctest.Test(t, func(t *testing.T) {
+			fio := &vfC05RIO{inbox: make(chan *protocol.UDPMessage), closed: make(chan struct{}), conns: map[string]*vfC05RConn{}}
+			sm := newUDPSessionManager(fio, vfC05SLogger{}, 60*time.Second)
+			done := make(chan struct{})
+			go func() { _ = sm.Run(); close(done) }()
+			addr := fmt.Sprintf("t%d.verif:53", ci)
+			sid := uint32(100 + ci)
+			if !c.First {
+				fio.inbox <- &protocol.UDPMessage{SessionID: sid, FragCount: 1, Addr: addr, Data: []byte("opening message")}
+				synctest.Wait()
+			}
+			per := 40
+			payload := vfC05SPayload(uint32(ci), c.NFrag*per-7)
+			for _, fi := range c.Order {
+				end := min((fi+1)*per, len(payload))
+				fio.inbox <- &protocol.UDPMessage{SessionID: sid, PacketID: uint16(500 + ci%60000), FragID: uint8(fi), FragCount: uint8(c.NFrag),
+					Addr: addr, Data: append([]byte(nil), payload[fi*per:end]...)}
+			}
+			synctest.Wait()
+			rep := map[string]any{"case_id": c.CaseID, "case": c}
+			fio.mu.Lock()
+			conn := fio.conns[addr]
+			fio.mu.Unlock()
+			got := 0
+			if conn != nil {
+				conn.mu.Lock()
+				for wi, wdata := range conn.writes {
+					if bytes.Equal(wdata, []byte("opening message")) {
+						continue
+					}
+					got++
+					if !bytes.Equal(wdata, payload) {
+						k.Violation("recv:forwarded-datagram-differs", rep, "a %d-byte datagram reached the socket, the message sent has %d bytes", len(wdata), len(payload))
+					}
+					if conn.addrs[wi] != addr {
+						k.Violation("recv:forwarded-to-wrong-address", rep, "datagram written to %q, requested %q", conn.addrs[wi], addr)
+					}
+				}
+				conn.mu.Unlock()
+			}
+			k.Count("ev_recv_order_fragments", int64(len(c.Order)))
+			if got == 1 {
+				k.Count("ev_recv_order_delivered", 1)
+				k.Nontrivial(fmt.Sprint(c.NFrag, c.Order, c.First))
+			} else if got == 0 {
+				// every fragment arrived (any order, duplicates allowed): the message must come out
+				k.Violation("recv:complete-message-not-forwarded", rep, "all %d fragments arrived in order %v (first message of the session: %v) but nothing was forwarded", c.NFrag, c.Order, c.First)
+			} else {
+				k.Violation("recv:message-forwarded-twice", rep, "message forwarded %d times", got)
+			}
+			close(fio.closed)
+			<-done
+		})
+		if ci == 3 {
+			k.Sample(c)
+		}
+	}
+}
